@@ -72,6 +72,7 @@ def run_case(rng, idx, tier, lane, ctx):
     if lane == "pinned":
         return S.pinned_k02(gridded=False)
     spec = GE.gen_events(rng, limits="default")
+    grow_k = S.maybe_grown(rng, spec, 0.15)     # built for the first k states, evaluated, then extended (states via state_list, processes via add_*)
     theta = GE.param_values(rng, spec)
     x0 = GE.initial_state(rng, spec)
     ref, V = S.numeric_V(spec, theta)
@@ -83,10 +84,12 @@ def run_case(rng, idx, tier, lane, ctx):
     nontriv = False
     configs = []
     cls = G.classes(spec)
+    if grow_k:
+        cls.append("grown-model")
     if pyt0:
         cls.append("python-t0")
     try:
-        m = S.build_sim(spec, theta, x0, t0=t0)
+        m = S.build_sim(spec, theta, x0, t0=t0, grown=(rng, grow_k) if grow_k else None)
     except Exception as e:
         return {"status": "violated", "sample": spec, "counters": counters,
                 "witnesses": [{"what": "model construction / initial values raised", "error": short_exc(e), "tb": tb_tail(e)}]}
